@@ -2,7 +2,6 @@ package header
 
 import (
 	"net/textproto"
-	"sort"
 )
 
 type KeyValues struct {
@@ -36,5 +35,12 @@ func SortKeyValues(kvs []KeyValues, orderedKeys []string) {
 		order: order,
 		kvs:   kvs,
 	}
-	sort.Sort(s)
+	// The comparator mixes list index and slice position, so it is not a strict weak
+	// order: only a plain insertion sort keeps the listed keys in order for any length
+	// (sort.Sort switches to pdqsort above 12 elements and misorders them).
+	for i := 1; i < s.Len(); i++ {
+		for j := i; j > 0 && s.Less(j, j-1); j-- {
+			s.Swap(j, j-1)
+		}
+	}
 }
